@@ -18,12 +18,15 @@
 EXTENDS Cmap, Json
 
 CONSTANTS MaxBlocks, Gaps, Lens, Kinds, Bases, Fmts,
-          AllVars      \* TRUE: every (language, variant) per structure; FALSE: one, derived from the structure
+          AllVars,     \* TRUE: every (language, variant) per structure; FALSE: one, derived from the structure
+          FewAnchors   \* TRUE: only the anchors 0 / 0xFFFF (format 4) and the BMP edge (format 12)
 VARIABLES fmt, anchor, nb, blocks, rec, done
 vars == <<fmt, anchor, nb, blocks, rec, done>>
 
-Anchors4  == {<<"s", 0>>, <<"s", 32>>, <<"s", 125>>, <<"e", 65534>>, <<"e", 65535>>}
-Anchors12 == {<<"s", 0>>, <<"s", 65534>>, <<"s", 128512>>, <<"e", 1114111>>}
+Anchors4  == IF FewAnchors THEN {<<"s", 0>>, <<"e", 65535>>}
+             ELSE {<<"s", 0>>, <<"s", 32>>, <<"s", 125>>, <<"e", 65534>>, <<"e", 65535>>}
+Anchors12 == IF FewAnchors THEN {<<"s", 65534>>}
+             ELSE {<<"s", 0>>, <<"s", 65534>>, <<"s", 128512>>, <<"e", 1114111>>}
 Langs  == <<0, 5, 65535>>
 Vars4  == <<"ref", "arr0", "arr3", "arrM", "wide0", "wide5">>
 Vars12 == <<"ref", "single">>
